@@ -1,4 +1,115 @@
-import HioModel.Sched.TimeModel
+import HioModel.Sched.TimeFlatL
+/-!
+# C04 "Nesting doers inside a tock-0 DoDoer is observationally transparent"
+
+Grouping consecutive doers under a DoDoer with tock 0 (not `always`) gives the same observable run as listing them
+directly in the parent: same enter order, same sequence of (doer, tyme) recur steps, same completion cycle and done
+flags, forced exits in the same order.
+
+Vocabulary (`Sched/TimeDefs.lean`, `TimeFlatten.lean`, `TimeFlatL.lean`):
+* `Flattens keep p q` — `q` is the forest `p` with every transparent group (`group i 0 false kids _`) spliced away, at
+  any nesting depth; leaves are op-free, do not raise, enter does not fail; `keep` selects the observed doers
+  (true on every leaf, false on every spliced group).  `Spec.flatL` is the function (used by the driver), `Spec.okTL`
+  its Boolean precondition.
+* `SameView keep a b` — equal kept-event sequences (`enter`, `recur`, `clean`/`cease`/`exit` and the done-flag
+  assignments of every leaf, with their tymes, in trace order — hence enter order, recur steps, forced-exit order and
+  final done flags), equal scheduler `done`, final `tyme` (completion cycle), `cycles`, `raised`, `fuelOut`.
+* `g04` — guard G04: a script yields in the pattern `positive* asap*`.
+
+FULL STATEMENT (`flatten_transparent`), wanted for every program:
+    `Flattens keep p q → SameView keep (doistDo pool tock start limit fuel p) (doistDo pool tock start limit fuel q)`.
+It is FALSE for the code as it is (pre-finding F46): `DoDoer.recur` sets the due tyme after an asap yield to
+`tyme + its own tock (0)` where `Doist.recur` sets `tyme + tock`, and `retyme += t` then counts a following positive tock
+from one scheduler tock too early.  `flatten_transparent_fails_at_asap_then_positive` is the decided witness on the model
+(replayed on the real code by `harness/props/C04.py`, known finding C04-K1).  What IS proved, for every time type with
+`LawfulTyme`, every `0 ≤ tock`, start, limit, fuel, pool and nesting depth, is the statement under G04.
+-/
 namespace Hio.Sched
-theorem c04_stub : (1 : Nat) = 1 := rfl
+variable {τ : Type}
+variable [Add τ] [LE τ] [DecidableRel (α := τ) (· ≤ ·)] [OfNat τ 0] [BEq τ] [LawfulTyme τ]
+
+/-- C04 under guard G04 (every leaf script yields `positive* asap*`): the nested run and the run of its flattening
+are observationally equal.  Any nesting depth, any number of groups, empty groups, to completion or to a limit. -/
+theorem flatten_transparent_partial (keep : Id → Bool) (pool : List (Spec τ)) (tock start : τ) (limit : Option τ)
+    (fuel : Nat) {p q : List (Spec τ)} (h0 : 0 ≤ tock) (hF : Flattens keep p q) (hG : Spec.allStepsL g04 p = true) :
+    SameView keep (doistDo pool tock start limit fuel p) (doistDo pool tock start limit fuel q) := by
+  obtain ⟨esP, N0, esQ, F0, hP, hQ, hv, hs⟩ := hF.enter hG start
+  have hvQ : keepView keep esQ = esQ := by rw [← hv, keepView_idem]
+  unfold doistDo
+  rw [hP, hQ]
+  simp only []
+  obtain ⟨e1, e2, e3, e4, e5, e6⟩ :=
+    Sim.doLoop h0 pool (limit.map (start + ·)) fuel 0 start false N0 F0 (p.map Spec.id) (q.map Spec.id) hs
+  exact ⟨by simp only [keepView_append, hv, hvQ, e1], e2, e3, e4, e5, e6⟩
+
+/-- the same for the flattening FUNCTION the driver and the oracle use -/
+theorem flatL_transparent_partial (keep : Id → Bool) (pool : List (Spec τ)) (tock start : τ) (limit : Option τ)
+    (fuel : Nat) {p : List (Spec τ)} (h0 : 0 ≤ tock) (hT : Spec.okTL keep p = true) (hG : Spec.allStepsL g04 p = true) :
+    SameView keep (doistDo pool tock start limit fuel p) (doistDo pool tock start limit fuel (Spec.flatL p)) :=
+  flatten_transparent_partial keep pool tock start limit fuel h0 (flattens_flatL keep p hT) hG
+
+/-- any two regroupings `p`, `p'` of the same flat program `q` (consecutive siblings wrapped in transparent groups in any
+way, nested, with empty groups) run alike -/
+theorem regroup_transparent_partial (keep : Id → Bool) (pool : List (Spec τ)) (tock start : τ) (limit : Option τ)
+    (fuel : Nat) {p p' q : List (Spec τ)} (h0 : 0 ≤ tock) (hF : Flattens keep p q) (hF' : Flattens keep p' q)
+    (hG : Spec.allStepsL g04 p = true) (hG' : Spec.allStepsL g04 p' = true) :
+    SameView keep (doistDo pool tock start limit fuel p) (doistDo pool tock start limit fuel p') := by
+  obtain ⟨a1, a2, a3, a4, a5, a6⟩ := flatten_transparent_partial keep pool tock start limit fuel h0 hF hG
+  obtain ⟨b1, b2, b3, b4, b5, b6⟩ := flatten_transparent_partial keep pool tock start limit fuel h0 hF' hG'
+  exact ⟨a1.trans b1.symm, a2.trans b2.symm, a3.trans b3.symm, a4.trans b4.symm, a5.trans b5.symm, a6.trans b6.symm⟩
+
+/-! ### non-vacuity and the witness (τ := Nat) -/
+
+def yS (t : Option Nat) : Step Nat := ⟨[], .yieldT t⟩
+
+/-- nested: `[9:[1, 8:[], 3], 2]`, leaf 1 yields 2 then asap twice (G04 holds) -/
+def exNested : List (Spec Nat) :=
+  [.group 9 0 false [.leaf 1 .ok [yS (some 2), yS (some 0), yS none], .group 8 0 false [] [], .leaf 3 .ok [yS (some 3), ⟨[], .ret (some false)⟩]] [],
+   .leaf 2 .ok [yS (some 1), yS (some 1), yS (some 1)]]
+def keepEx : Id → Bool := fun i => i != 9 && i != 8
+
+/-- the hypotheses of `flatL_transparent_partial` are satisfiable by a two-level program with an empty group -/
+example : SameView keepEx (doistDo [] 1 5 (some 4) 100 exNested) (doistDo [] 1 5 (some 4) 100 (Spec.flatL exNested)) :=
+  flatL_transparent_partial keepEx [] 1 5 (some 4) 100 (by decide) (by decide) (by decide)
+
+/-- test (one program, by evaluation): leaf 1 is resumed at 5, 7, 8, 9 in both runs -/
+example : recurTymes 1 (doistDo [] 1 5 none 100 exNested).evs = [5, 7, 8, 9]
+    ∧ recurTymes 1 (doistDo [] 1 5 none 100 (Spec.flatL exNested)).evs = [5, 7, 8, 9] := by decide
+
+/-- pre-finding F46 as in DESIGN §7, scaled to integers: leaf 1 yields asap, then 3 -/
+def f46Nested : List (Spec Nat) :=
+  [.group 9 0 false [.leaf 1 .ok [yS (some 0), yS (some 3), yS (some 0), yS (some 0)]] [],
+   .leaf 2 .ok [yS (some 0), yS (some 0), yS (some 0), yS (some 0), yS (some 0), yS (some 0), yS (some 0)]]
+def f46Flat : List (Spec Nat) :=
+  [.leaf 1 .ok [yS (some 0), yS (some 3), yS (some 0), yS (some 0)],
+   .leaf 2 .ok [yS (some 0), yS (some 0), yS (some 0), yS (some 0), yS (some 0), yS (some 0), yS (some 0)]]
+
+theorem keepView_recurTymes (keep : Id → Bool) (i : Id) (hk : keep i = true) (evs : List (Ev Nat)) :
+    recurTymes i (keepView keep evs) = recurTymes i evs := by
+  simp only [recurTymes, keepView, List.filter_filter]
+  congr 1
+  apply List.filter_congr
+  intro e _
+  by_cases h : e.id = i
+  · simp [h, hk]
+  · simp [h]
+
+/-- the UNGUARDED statement fails on the model: `f46Flat` is the flattening of `f46Nested` (only G04 is violated), yet
+leaf 1 is resumed at 0,1,4,5,6 flat and at 0,1,3,4,5 nested -/
+theorem flatten_transparent_fails_at_asap_then_positive :
+    Flattens (fun i => i != 9) f46Nested f46Flat
+    ∧ ¬ SameView (fun i => i != 9) (doistDo [] 1 0 none 100 f46Nested) (doistDo [] 1 0 none 100 f46Flat) := by
+  refine ⟨?_, ?_⟩
+  · exact Flattens.group (q1 := [_]) (q2 := [_]) (by decide) (Flattens.leaf (by decide) (by decide) trivial Flattens.nil)
+      (Flattens.leaf (by decide) (by decide) trivial Flattens.nil)
+  · intro h
+    have e := congrArg (recurTymes 1) h.1
+    rw [keepView_recurTymes _ 1 (by decide), keepView_recurTymes _ 1 (by decide)] at e
+    revert e
+    decide
+
+/-- test: the two schedules of the witness, spelled out -/
+example : recurTymes 1 (doistDo [] 1 0 none 100 f46Flat).evs = [0, 1, 4, 5, 6]
+    ∧ recurTymes 1 (doistDo [] 1 0 none 100 f46Nested).evs = [0, 1, 3, 4, 5] := by decide
+
 end Hio.Sched
